@@ -54,7 +54,7 @@ private theorem split_inj {x x' s s' : Bytes} (hx : clean x) (hx' : clean x') (h
 
 /-! ### the names declared for one attribute -/
 
-private def ident (a : Attribute) : Bytes := identifier a.name
+def ident (a : Attribute) : Bytes := identifier a.name
 
 private def strSfx : List Bytes :=
   [bs "_Add", bs "_AddString", bs "_Get", bs "_GetString", bs "_Gets", bs "_GetStrings", bs "_Lookup",
@@ -121,7 +121,7 @@ private def aNames (vendor : Bool) (a : Attribute) (vals : List Value) : List By
   (attrDecls vendor a vals).map (·.name)
 
 /-- VALUE identifiers of an integer attribute are distinct -/
-private def valsOK (a : Attribute) (vals : List Value) : Prop :=
+def valsOK (a : Attribute) (vals : List Value) : Prop :=
   isIntKind a.typ = true → ((attrValues a.name vals).map (fun v => identifier v.name)).Nodup
 
 private theorem aNames_sfx (vendor : Bool) (a : Attribute) (vals : List Value) (hv : valsOK a vals) :
@@ -195,7 +195,7 @@ private theorem rep4 : Cfg.repaired.rejectBadIdent = true := rfl
 private theorem rep5 : Cfg.repaired.rejectRanges = true := rfl
 private theorem rep6 : Cfg.repaired.dropIgnoredVendorAttrs = true := rfl
 
-private theorem checkAttrs_ok (vendor : Bool) : ∀ (as : List Attribute) (seen seen' : List Bytes),
+theorem checkAttrs_ok (vendor : Bool) : ∀ (as : List Attribute) (seen seen' : List Bytes),
     checkAttrs Cfg.repaired vendor seen as = .ok seen' →
     (∀ x, x ∈ seen' ↔ x ∈ seen ∨ x ∈ as.map ident) ∧ (as.map ident).Nodup
     ∧ ∀ a ∈ as, ident a ∉ seen ∧ exportedIdent (ident a) = true := by
@@ -246,7 +246,7 @@ private theorem checkAttrs_ok (vendor : Bool) : ∀ (as : List Attribute) (seen 
       · exact ⟨hseen', hexp'⟩
       · exact ⟨fun hm => (h3 b hb).1 (List.mem_cons_of_mem _ hm), (h3 b hb).2⟩
 
-private theorem forM_ok {α} (f : α → Except Err Unit) : ∀ l : List α, l.forM f = .ok () → ∀ x ∈ l, f x = .ok () := by
+theorem forM_ok {α} (f : α → Except Err Unit) : ∀ l : List α, l.forM f = .ok () → ∀ x ∈ l, f x = .ok () := by
   intro l
   induction l with
   | nil => intro _ x hx; cases hx
@@ -265,7 +265,7 @@ private theorem ite_err_ne {c : Prop} [Decidable c] {e1 e2 : Err} {u : Unit} :
     (if c then (Except.error e1 : Except Err Unit) else .error e2) ≠ .ok u := by
   by_cases c <;> simp [*]
 
-private theorem valuesOK_ok (bits : Option Nat) (vals : List Value) (h : valuesOK Cfg.repaired bits vals = .ok ()) :
+theorem valuesOK_ok (bits : Option Nat) (vals : List Value) (h : valuesOK Cfg.repaired bits vals = .ok ()) :
     (vals.map (fun v => identifier v.name)).Nodup := by
   simp only [valuesOK, rep2, rep5, Bool.true_and] at h
   by_cases hn : (vals.map (fun v => identifier v.name)).Nodup
@@ -274,7 +274,7 @@ private theorem valuesOK_ok (bits : Option Nat) (vals : List Value) (h : valuesO
     simp only [hn, decide_false, Bool.not_false, if_true] at h
     exact ite_err_ne h
 
-private theorem checkAttrValues_ok (as : List Attribute) (vals : List Value)
+theorem checkAttrValues_ok (as : List Attribute) (vals : List Value)
     (h : checkAttrValues Cfg.repaired as vals = .ok ()) : ∀ a ∈ as, valsOK a vals := by
   intro a ha hk
   have := forM_ok _ _ h a ha
@@ -285,18 +285,18 @@ private theorem checkAttrValues_ok (as : List Attribute) (vals : List Value)
     rw [hnone] at hk
     cases hk
 
-private theorem mem_sortAttrs {cfg : Cfg} (as : List Attribute) (a : Attribute) : a ∈ sortAttrs cfg as ↔ a ∈ as :=
+theorem mem_sortAttrs {cfg : Cfg} (as : List Attribute) (a : Attribute) : a ∈ sortAttrs cfg as ↔ a ∈ as :=
   mem_sortStable _ _ _
 
 /-- per emitted vendor: what `checkVendors` guarantees, relative to the identifiers taken before -/
-private def vendorOK (seen vseen : List Bytes) (vs : List Vendor) (v : EVendor) : Prop :=
+def vendorOK (seen vseen : List Bytes) (vs : List Vendor) (v : EVendor) : Prop :=
   (v.attrs.map ident).Nodup ∧ identifier v.name ∉ vseen ∧
   ∀ a ∈ v.attrs, ident a ∉ seen ∧ exportedIdent (ident a) = true ∧ (∃ v0 ∈ vs, a ∈ v0.attributes) ∧ valsOK a v.values
 
-private def vendorsApart (v w : EVendor) : Prop :=
+def vendorsApart (v w : EVendor) : Prop :=
   identifier v.name ≠ identifier w.name ∧ ∀ a ∈ v.attrs, ∀ b ∈ w.attrs, ident a ≠ ident b
 
-private theorem checkVendors_ok (o : Options) : ∀ (vs : List Vendor) (seen vseen : List Bytes) (evs : List EVendor) (imps : List Imp),
+theorem checkVendors_ok (o : Options) : ∀ (vs : List Vendor) (seen vseen : List Bytes) (evs : List EVendor) (imps : List Imp),
     checkVendors Cfg.repaired o seen vseen vs = .ok (evs, imps) →
     (∀ v ∈ evs, vendorOK seen vseen vs v) ∧ evs.Pairwise vendorsApart := by
   intro vs
@@ -360,15 +360,15 @@ private theorem checkVendors_ok (o : Options) : ∀ (vs : List Vendor) (seen vse
 
 /-! ### the sections of a successful run -/
 
-private def gAttrs (cfg : Cfg) (d : Dictionary) (o : Options) : List Attribute := sortAttrs cfg (kept o d.attributes)
-private def gExts (o : Options) : List (Bytes × Bytes) := sortStable (fun a b => bytesLt a.1 b.1) o.refs
-private def gVals (_cfg : Cfg) (d : Dictionary) (o : Options) : List Value := d.values.filter (fun v => !o.ignore.contains v.attrName)
-private def gLocals (cfg : Cfg) (d : Dictionary) (o : Options) : List Value :=
+def gAttrs (cfg : Cfg) (d : Dictionary) (o : Options) : List Attribute := sortAttrs cfg (kept o d.attributes)
+def gExts (o : Options) : List (Bytes × Bytes) := sortStable (fun a b => bytesLt a.1 b.1) o.refs
+def gVals (_cfg : Cfg) (d : Dictionary) (o : Options) : List Value := d.values.filter (fun v => !o.ignore.contains v.attrName)
+def gLocals (cfg : Cfg) (d : Dictionary) (o : Options) : List Value :=
   sortValues ((gVals cfg d o).filter (fun v => route (gAttrs cfg d o) (gExts o) v == .loc))
-private def gExtVals (cfg : Cfg) (d : Dictionary) (o : Options) (e : Bytes × Bytes) : List Value :=
+def gExtVals (cfg : Cfg) (d : Dictionary) (o : Options) (e : Bytes × Bytes) : List Value :=
   (gVals cfg d o).filter (fun v => route (gAttrs cfg d o) (gExts o) v == .ext e.1)
 
-private def gSections (cfg : Cfg) (d : Dictionary) (o : Options) (evs : List EVendor) : List (Origin × List Decl) :=
+def gSections (cfg : Cfg) (d : Dictionary) (o : Options) (evs : List EVendor) : List (Origin × List Decl) :=
   (gAttrs cfg d o).map (fun a => (Origin.attr false a, [(⟨.const, .typeConst, identifier a.name ++ bs "_Type", [], [.radiusType]⟩ : Decl)]))
   ++ evs.map (fun v => (Origin.vendor v.name, [(⟨.const, .vendorId, bs "_" ++ identifier v.name ++ bs "_VendorID", [], [.untyped]⟩ : Decl)]))
   ++ (gExts o).map (fun e => (Origin.ext e.1,
@@ -378,7 +378,7 @@ private def gSections (cfg : Cfg) (d : Dictionary) (o : Options) (evs : List EVe
   ++ evs.flatMap (fun v => (Origin.vendor v.name, vendorHelperDecls (identifier v.name))
       :: v.attrs.map (fun a => (Origin.attr true a, attrDecls true a v.values)))
 
-private theorem generate_ok {cfg : Cfg} {d : Dictionary} {o : Options} {out : Output} (h : generate cfg d o = .ok out) :
+theorem generate_ok {cfg : Cfg} {d : Dictionary} {o : Options} {out : Output} (h : generate cfg d o = .ok out) :
     ∃ seen evs0 vimps,
       checkAttrs cfg false [] (kept o d.attributes) = .ok seen ∧
       checkAttrValues cfg (gAttrs cfg d o) (gLocals cfg d o) = .ok () ∧
@@ -636,7 +636,7 @@ private theorem nodup_append5 {α} {l1 l2 l3 l4 l5 : List α}
 
 /-! ### the theorem -/
 
-private theorem route_ext {attrs : List Attribute} {exts : List (Bytes × Bytes)} {v : Value} {n : Bytes}
+theorem route_ext {attrs : List Attribute} {exts : List (Bytes × Bytes)} {v : Value} {n : Bytes}
     (h : route attrs exts v = .ext n) : v.attrName = n := by
   unfold route at h
   split at h
